@@ -13,7 +13,7 @@ TOK = {"Add": "+", "Sub": "-", "Mul": "*", "Div": "/", "Mod": "%%", "AND": "&&",
        "GT": ">", "LT": "<", "NotEqual": "!=", "GTEqual": ">=", "LTEqual": "<=", "REMatch": "~",
        "NotREMatch": "!~", "IN": "in", "IS": "is", "DOT": "."}
 THEOREMS = ["code_table_is_reference", "all_ops_complete", "climb_total", "climb_sound", "wf_unique",
-            "shape_operand_independent", "climb_example"]
+            "shape_operand_independent", "climb_example", "parser_trees_respect_the_table"]
 
 # closed compound operands (never extend to the right); dumps are taken from the implementation itself
 COMPOUND = ['[1, 2]', '{a = 1}', 'f(x)', 't{a = 1}', 'select (c, 1) => {a = 2}', 'map(f, l)',
